@@ -335,6 +335,19 @@ def _perturb_sd(sd):
     return sd
 
 
+def _fantasy_child(m, f):
+    """get_fantasy_model on a model that has predicted. Kernel-specific strategies (KISS-GP) keep non-leaf caches when they
+    predicted with autograd on, and the model copy inside get_fantasy_model refuses those (recorded deepcopy finding): such a
+    strategy is rebuilt with autograd off first, so that the fantasy operations are not a blind spot for those families"""
+    with torch.no_grad():
+        strat = m.prediction_strategy
+        if strat is not None and any(torch.is_tensor(v_) and v_.grad_fn is not None for v_ in getattr(strat, "_memoize_cache", {}).values()):
+            m.prediction_strategy = None
+        if m.prediction_strategy is None:
+            predict(m, f.xs)
+        return m.get_fantasy_model(list(f.Xf) if isinstance(f.Xf, tuple) else f.Xf, f.yf)
+
+
 def apply_op(fam, m, op, state):
     """state: dict carrying the family's data (mutated by set_data)"""
     f = state["fam"]
@@ -460,16 +473,10 @@ def apply_op(fam, m, op, state):
     elif op == "load_sd_same":
         m.load_state_dict(copy.deepcopy(m.state_dict()))
     elif op == "fantasy":
-        if m.prediction_strategy is None:
-            predict(m, f.xs)
-        Xf = f.Xf
-        yf = f.yf
-        m.get_fantasy_model(list(Xf) if isinstance(Xf, tuple) else Xf, yf)
+        _fantasy_child(m, f)
     elif op == "fantasy_train":
         # a fantasy model is created and TRAINED (one optimiser step on its own parameters): nothing of the source may move
-        if m.prediction_strategy is None:
-            predict(m, f.xs)
-        fm = m.get_fantasy_model(list(f.Xf) if isinstance(f.Xf, tuple) else f.Xf, f.yf)
+        fm = _fantasy_child(m, f)
         fm.train()
         fm.likelihood.train()
         params = [p_ for p_ in {id(p): p for p in list(fm.parameters()) + list(fm.likelihood.parameters())}.values() if p_.requires_grad]
